@@ -214,6 +214,15 @@ def shared_buffers(changed_first=False):
     })
 
 
+def named_array_operand():
+    """entries of a DictOfNamedArrays (plain NamedArray nodes) used as operands of further nodes"""
+    pt = _pt()
+    x = pt.make_placeholder("x", (4,), np.float64)
+    y = pt.make_placeholder("y", (4,), np.float64)
+    d = pt.make_dict_of_named_arrays({"a": 2 * x, "b": x + y})
+    return pt.make_dict_of_named_arrays({"out": 3 * d["a"] + y, "other": d["b"] * d["a"]})
+
+
 def all_graphs(tier="quick"):
     """[(name, builder, has_duplicates)]"""
     G = [
@@ -236,6 +245,7 @@ def all_graphs(tier="quick"):
         ("shared-defs-gf", lambda: shared_function_defs("gf"), False),
         ("shared-defs-hgf", lambda: shared_function_defs("hgf"), False),
         ("shared-buffers", shared_buffers, False),
+        ("named-array-operand", named_array_operand, False),
         ("shared-buffers-changed-first", lambda: shared_buffers(True), False),
     ]
     if tier != "quick":
